@@ -26,12 +26,90 @@ BlobT(n, fields) == [k |-> "tname", kind |-> "blob", n |-> n, fields |-> fields]
 EnumT(n, variants) == [k |-> "tname", kind |-> "enum", n |-> n, variants |-> variants] \* variants: <<[v, has, ty]>>
 UV1(v, ty) == [v |-> v, has |-> TRUE, ty |-> ty]
 UV0(v) == [v |-> v, has |-> FALSE]
+\* a leaf whose values are given as EXPRESSIONS (references to the globals below, ...): name = its shape, ast = its Sylt type,
+\* flags \subseteq {"ord", "add", "num", "nan"}: which operator classes the property names for it / it contains an IEEE NaN
+LeafT(name, ast, es, flags) == [k |-> "tleaf", name |-> name, ast |-> ast, es |-> es, flags |-> flags]
+\* string LITERALS with escape sequences: all sequences of at most max atoms (pieces of source text); see Denote below
+EscT(atoms, max) == [k |-> "tesc", atoms |-> atoms, max |-> max]
+
+---------------------------------------------------------------------------
+(* GLOBALS every generated program declares and the universe refers to by binder id.                                    *)
+(* Three functions (two of them with the same text, so "same function" means the same OBJECT, not the same code): a      *)
+(* function is a value, equal to itself only - a blob / tuple / list / variant holding `inc` differs from one holding     *)
+(* `dec` or `inc_too`.  Two IEEE constants the dyadic model cannot compute but SyltValues has (fx): the program text      *)
+(* says `0.0 / 0.0` and `1.0 / 0.0`, the specification binds the names to NaN and +infinity.                              *)
+GInc == 701  GDec == 702  GIncToo == 703  GNan == 704  GInf == 705
+FnIntInt(p, op) == Fn(<<P(p, TInt)>>, TInt, <<Ex(Bin(op, V(p), I(1)))>>)
+Globals == << [b |-> GInc, n |-> "inc", ty |-> TNone, e |-> FnIntInt(711, "+"), v |-> CloV(FnIntInt(711, "+"), 0)],
+              [b |-> GDec, n |-> "dec", ty |-> TNone, e |-> FnIntInt(712, "-"), v |-> CloV(FnIntInt(712, "-"), 0)],
+              [b |-> GIncToo, n |-> "inc_too", ty |-> TNone, e |-> FnIntInt(713, "+"), v |-> CloV(FnIntInt(713, "+"), 0)],
+              [b |-> GNan, n |-> "qnan", ty |-> TFloat, e |-> Bin("/", Fl(0, 0), Fl(0, 0)), v |-> FxV("nan")],
+              [b |-> GInf, n |-> "pinf", ty |-> TFloat, e |-> Bin("/", Fl(1, 0), Fl(0, 0)), v |-> FxV("inf")] >>
+GlobalDecls == [i \in 1..Len(Globals) |-> DefN(Globals[i].b, "const", Globals[i].ty, Globals[i].e, Globals[i].n)]
+
+---------------------------------------------------------------------------
+(* STRING LITERALS.  Sylt hands the text between the quotes to Lua as it is; what a literal DENOTES is a sequence of      *)
+(* bytes, by the lexical rules of Lua 5.3: \n \t \\ ..., \ddd (up to three decimal digits, greedy), \xhh, \z (skips the  *)
+(* white space that follows), \u{h..} (UTF-8).  String values of this universe are byte sequences (SyltValues only        *)
+(* compares and concatenates the v of a str), so `+` is concatenation OF THE DENOTATIONS - never of the source texts.     *)
+DigVal == ("0" :> 0) @@ ("1" :> 1) @@ ("2" :> 2) @@ ("3" :> 3) @@ ("4" :> 4) @@ ("5" :> 5) @@ ("6" :> 6) @@ ("7" :> 7)
+          @@ ("8" :> 8) @@ ("9" :> 9)
+HexVal == DigVal @@ ("a" :> 10) @@ ("b" :> 11) @@ ("c" :> 12) @@ ("d" :> 13) @@ ("e" :> 14) @@ ("f" :> 15)
+                 @@ ("A" :> 10) @@ ("B" :> 11) @@ ("C" :> 12) @@ ("D" :> 13) @@ ("E" :> 14) @@ ("F" :> 15)
+SimpleEsc == ("a" :> 7) @@ ("b" :> 8) @@ ("t" :> 9) @@ ("n" :> 10) @@ ("v" :> 11) @@ ("f" :> 12) @@ ("r" :> 13) @@ ("\\" :> 92)
+\* the characters that stand for themselves in the literals of this universe
+PlainCode == (" " :> 32) @@ ("3" :> 51) @@ ("5" :> 53) @@ ("A" :> 65) @@ ("a" :> 97) @@ ("b" :> 98) @@ ("n" :> 110)
+             @@ ("x" :> 120) @@ ("z" :> 122) @@ ("<" :> 60) @@ (">" :> 62)
+Ch(s, i) == SubSeq(s, i, i)
+BadLit == [ok |-> FALSE, v |-> <<>>]
+Utf8(cp) == IF cp < 128 THEN <<cp>> ELSE <<192 + (cp \div 64), 128 + (cp % 64)>>
+RECURSIVE Den(_, _, _), HexRun(_, _, _)
+\* value of the hexadecimal digits s[i..] up to (not including) the `}` : [ok, n, next]
+HexRun(s, i, n) == IF i > Len(s) THEN [ok |-> FALSE, n |-> 0, next |-> i]
+                   ELSE IF Ch(s, i) = "}" THEN [ok |-> TRUE, n |-> n, next |-> i + 1]
+                   ELSE IF Ch(s, i) \in DOMAIN HexVal /\ n < 128 THEN HexRun(s, i + 1, n * 16 + HexVal[Ch(s, i)])
+                   ELSE [ok |-> FALSE, n |-> 0, next |-> i]
+Den(s, i, acc) ==
+  IF i > Len(s) THEN [ok |-> TRUE, v |-> acc]
+  ELSE LET c == Ch(s, i) IN
+    IF c # "\\" THEN (IF c \in DOMAIN PlainCode THEN Den(s, i + 1, Append(acc, PlainCode[c])) ELSE BadLit)
+    ELSE IF i = Len(s) THEN BadLit
+    ELSE LET e == Ch(s, i + 1)
+             dig(j) == j <= Len(s) /\ Ch(s, j) \in DOMAIN DigVal
+             hex(j) == j <= Len(s) /\ Ch(s, j) \in DOMAIN HexVal IN
+      IF e \in DOMAIN SimpleEsc THEN Den(s, i + 2, Append(acc, SimpleEsc[e]))
+      ELSE IF dig(i + 1)
+        THEN LET n == IF dig(i + 2) THEN (IF dig(i + 3) THEN 3 ELSE 2) ELSE 1
+                 val == IF n = 1 THEN DigVal[Ch(s, i + 1)]
+                        ELSE IF n = 2 THEN DigVal[Ch(s, i + 1)] * 10 + DigVal[Ch(s, i + 2)]
+                        ELSE DigVal[Ch(s, i + 1)] * 100 + DigVal[Ch(s, i + 2)] * 10 + DigVal[Ch(s, i + 3)] IN
+             IF val > 255 THEN BadLit ELSE Den(s, i + 1 + n, Append(acc, val))
+      ELSE IF e = "x" THEN (IF hex(i + 2) /\ hex(i + 3)
+                            THEN Den(s, i + 4, Append(acc, HexVal[Ch(s, i + 2)] * 16 + HexVal[Ch(s, i + 3)])) ELSE BadLit)
+      ELSE IF e = "z" THEN LET RECURSIVE Skip(_)
+                               Skip(j) == IF j <= Len(s) /\ Ch(s, j) = " " THEN Skip(j + 1) ELSE j
+                           IN Den(s, Skip(i + 2), acc)
+      ELSE IF e = "u" THEN (IF i + 2 <= Len(s) /\ Ch(s, i + 2) = "{"
+                            THEN LET h == HexRun(s, i + 3, 0) IN
+                                 IF h.ok /\ h.next > i + 4 THEN Den(s, h.next, acc \o Utf8(h.n)) ELSE BadLit
+                            ELSE BadLit)
+      ELSE BadLit
+Denote(src) == Den(src, 1, <<>>)
+\* the literal with source text src: SyltSem sees a str node whose v is the denotation; the replayer writes src
+EscLit(src) == [k |-> "str", v |-> Denote(src).v, src |-> src]
 
 (* declarations every generated program starts with *)
-Decls == << BlobD("A", <<FD("x", TInt)>>),
+Decls ==<< BlobD("A", <<FD("x", TInt)>>),
             BlobD("B", <<FD("p", TTuple(<<TInt, TStr>>)), FD("q", TList(TInt))>>),
             EnumD("E", <<VD0("N"), VD1("I", TInt), VD1("T", TTuple(<<TInt, TStr>>)), VD1("L", TList(TInt))>>),
-            BlobD("C", <<FD("a", TName("A")), FD("e", TName("E"))>>) >>
+            BlobD("C", <<FD("a", TName("A")), FD("e", TName("E"))>>),
+            \* a blob with a FUNCTION-valued field, inside an enum payload and inside another blob
+            BlobD("F", <<FD("w", TInt), FD("f", TFn(<<TInt>>, TInt))>>),
+            EnumD("W", <<VD1("Wrap", TName("F")), VD0("Empty")>>),
+            BlobD("G", <<FD("a", TName("F")), FD("k", TInt)>>),
+            \* fields / payloads of the remaining scalar types (a false, an empty string, a 0.0 are values like any other)
+            BlobD("K", <<FD("b", TBool), FD("s", TStr), FD("r", TFloat)>>),
+            EnumD("V", <<VD1("B", TBool), VD1("S", TStr), VD1("R", TFloat), VD1("U", TTuple(<<>>))>>) >> \o GlobalDecls
 
 ---------------------------------------------------------------------------
 (* size and index addressing: Nth(ty, i), i in 0..Count(ty)-1, lexicographic in the components *)
@@ -51,6 +129,8 @@ VarSum(vs, i) == IF i > Len(vs) THEN 0 ELSE VarCount(vs[i]) + VarSum(vs, i + 1)
 Count(ty) ==
   CASE ty.k \in {"tint", "tfloat", "tstr"} -> Len(ty.vs)
     [] ty.k = "tbool" -> 2
+    [] ty.k = "tleaf" -> Len(ty.es)
+    [] ty.k = "tesc" -> PowSum(Len(ty.atoms), ty.max)
     [] ty.k = "ttuple" -> ProdCount(ty.es, 1)
     [] ty.k = "tlist" -> PowSum(Count(ty.e), ty.max)
     [] ty.k = "tname" -> IF ty.kind = "blob" THEN ProdCount(FieldTys(ty), 1) ELSE VarSum(ty.variants, 1)
@@ -73,8 +153,17 @@ NthVariant(ty, j, i) == LET vr == ty.variants[j]  c == VarCount(vr) IN
                         IF i < c THEN (IF vr.has THEN Var1(ty.n, vr.v, Nth(vr.ty, i)) ELSE Var0(ty.n, vr.v))
                         ELSE NthVariant(ty, j + 1, i - c)
 
+\* source text of the i-th sequence of n atoms; shorter literals first
+RECURSIVE EscSrc(_, _, _), NthEsc(_, _, _)
+EscSrc(ty, n, i) == IF n = 0 THEN ""
+                    ELSE LET rest == Pow(Len(ty.atoms), n - 1) IN ty.atoms[(i \div rest) + 1] \o EscSrc(ty, n - 1, i % rest)
+NthEsc(ty, n, i) == LET here == Pow(Len(ty.atoms), n) IN
+                    IF i < here THEN EscLit(EscSrc(ty, n, i)) ELSE NthEsc(ty, n + 1, i - here)
+
 Nth(ty, i) ==
   CASE ty.k = "tint" -> I(ty.vs[i + 1])
+    [] ty.k = "tleaf" -> ty.es[i + 1]
+    [] ty.k = "tesc" -> NthEsc(ty, 0, i)
     [] ty.k = "tfloat" -> Fl(ty.vs[i + 1][1], ty.vs[i + 1][2])
     [] ty.k = "tstr" -> St(ty.vs[i + 1])
     [] ty.k = "tbool" -> Bo(i = 1)
@@ -95,13 +184,16 @@ NoOrd(ty) == "noord" \in DOMAIN ty
 RECURSIVE Ordered(_), Numeric(_), Addable(_), HasBlob(_)
 Ordered(ty) == CASE ty.k \in {"tint", "tfloat"} -> TRUE
                  [] ty.k = "tstr" -> ~NoOrd(ty)
+                 [] ty.k = "tleaf" -> "ord" \in ty.flags
                  [] ty.k = "ttuple" -> \A i \in 1..Len(ty.es) : Ordered(ty.es[i])
                  [] OTHER -> FALSE
 Numeric(ty) == CASE ty.k \in {"tint", "tfloat"} -> ~NoArith(ty)
+                 [] ty.k = "tleaf" -> "num" \in ty.flags
                  [] ty.k = "ttuple" -> \A i \in 1..Len(ty.es) : Numeric(ty.es[i])
                  [] OTHER -> FALSE
 Addable(ty) == CASE ty.k \in {"tint", "tfloat"} -> ~NoArith(ty)
-                 [] ty.k = "tstr" -> TRUE
+                 [] ty.k \in {"tstr", "tesc"} -> TRUE
+                 [] ty.k = "tleaf" -> "add" \in ty.flags
                  [] ty.k = "ttuple" -> \A i \in 1..Len(ty.es) : Addable(ty.es[i])
                  [] OTHER -> FALSE
 HasBlob(ty) == CASE ty.k = "ttuple" -> \E i \in 1..Len(ty.es) : HasBlob(ty.es[i])
@@ -109,6 +201,25 @@ HasBlob(ty) == CASE ty.k = "ttuple" -> \E i \in 1..Len(ty.es) : HasBlob(ty.es[i]
                  [] ty.k = "tname" -> IF ty.kind = "blob" THEN TRUE
                                       ELSE \E i \in 1..Len(ty.variants) : ty.variants[i].has /\ HasBlob(ty.variants[i].ty)
                  [] OTHER -> FALSE
+
+\* the type has a leaf that holds an IEEE NaN: the laws that IEEE itself exempts NaN from are not demanded of it
+RECURSIVE HasNan(_)
+HasNan(ty) == CASE ty.k = "tleaf" -> "nan" \in ty.flags
+                [] ty.k = "ttuple" -> \E i \in 1..Len(ty.es) : HasNan(ty.es[i])
+                [] ty.k = "tlist" -> HasNan(ty.e)
+                [] OTHER -> FALSE
+\* a literal without the way it is written: two literals denote the same value iff these are the same
+RECURSIVE Strip(_)
+Strip(e) == CASE e.k = "str" -> St(e.v)
+              [] e.k \in {"tuple", "list"} -> [e EXCEPT !.es = [i \in 1..Len(e.es) |-> Strip(e.es[i])]]
+              [] e.k = "blob" -> [e EXCEPT !.fields = [i \in 1..Len(e.fields) |-> FI(e.fields[i].f, Strip(e.fields[i].e))]]
+              [] e.k = "variant" -> (IF e.has THEN [e EXCEPT !.e = Strip(e.e)] ELSE e)
+              [] OTHER -> e
+\* byte strings are OBSERVED through as_chars (the list of their byte values): control characters never reach the output
+IsBytes(ty) == ty.k = "tesc"
+Observe(ty, op, e) == IF IsBytes(ty) /\ op = "+" THEN Call(Std("as_chars"), <<e>>) ELSE e
+ObserveSnap(ty, op, snap) == IF IsBytes(ty) /\ op = "+" /\ snap.k = "str"
+                             THEN [k |-> "list", es |-> [i \in 1..Len(snap.v) |-> IntV(snap.v[i])]] ELSE snap
 
 EqOps  == <<"==", "!=">>
 OrdOps == <<"<", "<=", ">", ">=">>
@@ -123,6 +234,8 @@ Shape(ty) == CASE ty.k = "tint" -> (IF NoArith(ty) THEN "bigint" ELSE "int")
                [] ty.k = "tfloat" -> (IF NoArith(ty) THEN "bigfloat" ELSE "float")
                [] ty.k = "tstr" -> (IF NoOrd(ty) THEN "numstr" ELSE "str")
                [] ty.k = "tbool" -> "bool"
+               [] ty.k = "tleaf" -> ty.name
+               [] ty.k = "tesc" -> "escstr"
                [] ty.k = "ttuple" -> "tuple(" \o JoinShapes(ty.es, 1) \o ")"
                [] ty.k = "tlist" -> "list(" \o Shape(ty.e) \o ")"
                [] ty.k = "tname" -> ty.kind \o "(" \o ty.n \o ")"
@@ -135,6 +248,7 @@ Kids(e) == CASE e.k \in {"tuple", "list"} -> e.es
 Min2(a, b) == IF a < b THEN a ELSE b
 Rel(a, b) ==
   IF a = b THEN "equal"
+  ELSE IF a.k = "str" /\ a.v = b.v THEN "same-value"          \* two spellings of one string
   ELSE IF a.k = "variant" THEN (IF a.v # b.v THEN "differ-at-first" ELSE "differ-at-last")
   ELSE LET x == Kids(a)  y == Kids(b) IN
     IF Len(x) = 0 /\ Len(y) = 0 THEN "differ-at-first"
@@ -146,7 +260,9 @@ Rel(a, b) ==
 
 ---------------------------------------------------------------------------
 (* expected results: the dynamic semantics applied to the operand values *)
-S0 == NewState(200)
+\* the start state: the globals are bound (functions to their closures over the global frame, as InitTop does)
+S0 == [NewState(200) EXCEPT !.glob = (Globals[1].b :> Globals[1].v) @@ (Globals[2].b :> Globals[2].v) @@ (Globals[3].b :> Globals[3].v)
+                                     @@ (Globals[4].b :> Globals[4].v) @@ (Globals[5].b :> Globals[5].v)]
 EvalAll(es) == EvalList(es, 1, 0, S0, <<>>)          \* all in one heap, left to right
 Snap(r) == Render(r.v, r.s.heap, 8)
 IsStuck(why) == Len(why) >= 5 /\ SubSeq(why, 1, 5) = "stuck"
@@ -179,7 +295,8 @@ Apply1(op, shape, rel, form, e, va, vb, S) ==
 \* every operator of the type on the pair (ea, eb)
 PairApps(ty, ea, eb, va, vb, S) ==
   LET ops == OpsFor(ty)  sh == Shape(ty)  rel == Rel(ea, eb) IN
-  [i \in 1..Len(ops) |-> Apply1(ops[i], sh, rel, "lit", Bin(ops[i], ea, eb), va, vb, S)]
+  [i \in 1..Len(ops) |-> LET ap == Apply1(ops[i], sh, rel, "lit", Bin(ops[i], ea, eb), va, vb, S) IN
+                         [ap EXCEPT !.item.e = Observe(ty, ops[i], @), !.item.want = ObserveSnap(ty, ops[i], @)]]
 
 ---------------------------------------------------------------------------
 (* the laws of the property, on one pair *)
@@ -203,21 +320,24 @@ OkBool(op, x, y, S) == LET r == LawBin(op, x, y, S) IN r.sig = "ok" /\ r.v.k = "
 \* one evaluated law: its name and whether it held (MC_Composite reports the names evaluated and requires ok of all)
 Law(c, name) == {[n |-> name, ok |-> c]}
 
-EqLaws(ea, eb, a, b, a2, S) ==
+EqLaws(ty, ea, eb, a, b, a2, S) ==
   LET eq == BoolOf("==", a, b, S) IN
        Law(OkBool("==", a, b, S) /\ OkBool("!=", a, b, S), "eq-total")
-  \cup Law(BoolOf("==", a, a2, S), "reflexive")                      \* a2: a second evaluation of the same expression
   \cup Law(eq = BoolOf("==", b, a, S), "symmetric")
   \cup Law(BoolOf("!=", a, b, S) = ~eq, "complement")
-  \cup Law(eq = (ea = eb), "eq-iff-same-literal")                    \* distinct literals of the universe denote distinct values
+  \cup (IF HasNan(ty) THEN {}                                        \* IEEE: NaN is not equal to itself
+        ELSE Law(BoolOf("==", a, a2, S), "reflexive")                \* a2: a second evaluation of the same expression
+             \* distinct literals of the universe denote distinct values - up to the spelling of a string
+             \cup Law(eq = (Strip(ea) = Strip(eb)), "eq-iff-same-literal"))
 
-OrdLaws(a, b, S) ==
+OrdLaws(ty, a, b, S) ==
   LET eq == BoolOf("==", a, b, S)  lt == BoolOf("<", a, b, S)  le == BoolOf("<=", a, b, S)
       gt == BoolOf(">", a, b, S)   ge == BoolOf(">=", a, b, S) IN
        Law(\A op \in {"<", "<=", ">", ">="} : OkBool(op, a, b, S), "order-total")
   \cup Law(le = (lt \/ eq), "le-is-lt-or-eq")
   \cup Law(ge = (gt \/ eq), "ge-is-gt-or-eq")
-  \cup Law((lt /\ ~eq /\ ~gt) \/ (~lt /\ eq /\ ~gt) \/ (~lt /\ ~eq /\ gt), "trichotomy")
+  \cup (IF HasNan(ty) THEN Law(~(lt /\ gt) /\ ~(lt /\ eq) /\ ~(gt /\ eq), "at-most-one-of-lt-eq-gt")        \* IEEE: NaN is unordered
+        ELSE Law((lt /\ ~eq /\ ~gt) \/ (~lt /\ eq /\ ~gt) \/ (~lt /\ ~eq /\ gt), "trichotomy"))
   \cup Law(gt = BoolOf("<", b, a, S), "gt-is-flipped-lt")
   \cup Law(ge = BoolOf("<=", b, a, S), "ge-is-flipped-le")
 
@@ -240,8 +360,8 @@ TupleLaws(ty, a, b, S) ==
                             \cup Law(arith("/"), "div-componentwise") ELSE {})
 
 PairLaws(ty, ea, eb, a, b, a2, S) ==
-  EqLaws(ea, eb, a, b, a2, S)
-  \cup (IF Ordered(ty) THEN OrdLaws(a, b, S) ELSE {})
+  EqLaws(ty, ea, eb, a, b, a2, S)
+  \cup (IF Ordered(ty) THEN OrdLaws(ty, a, b, S) ELSE {})
   \cup (IF ty.k = "ttuple" THEN TupleLaws(ty, a, b, S) ELSE {})
 
 \* one pair: its operator applications and the set of laws it violates
@@ -336,6 +456,28 @@ BigF == [k |-> "tfloat", vs |-> << <<0 - 950000, 0>>, <<0 - 1, 0>>, <<1, 1>>, <<
 NumStr  == [k |-> "tstr", vs |-> <<"1", "0x10", "1e2", " 7 ", "-3", ".5", "inf", "nan", "", "a">>, noord |-> TRUE]
 NumStr5 == [k |-> "tstr", vs |-> <<"1", "0x10", " 7 ", ".5", "a">>, noord |-> TRUE]
 
+(* FUNCTIONS AS FIELD VALUES.  A function is a value that is equal to itself only: the leaf holds references to the three   *)
+(* global functions (inc, dec, inc_too - the last with the text of the first).  Blob F {w: int, f: fn int -> int}: same /   *)
+(* different function object x equal / different data; and F inside a tuple, a list, an enum payload, another blob.        *)
+FnRef == LeafT("fn", TFn(<<TInt>>, TInt), <<V(GInc), V(GDec), V(GIncToo)>>, {})
+BlobF == BlobT("F", <<[f |-> "w", ty |-> Int2], [f |-> "f", ty |-> FnRef]>>)
+EnumW == EnumT("W", <<UV1("Wrap", BlobF), UV0("Empty")>>)
+BlobG == BlobT("G", <<[f |-> "a", ty |-> BlobF], [f |-> "k", ty |-> Int2]>>)
+(* TUPLES OF EVERY WIDTH, 0 included: the unit tuple () alone, as a component (first, last, only), in a list.  It is ordered *)
+(* (() < () is false, () <= () true), numeric and addable like every tuple whose components are.                            *)
+Unit == TupT(<<>>)
+(* IEEE VALUES AS COMPONENTS: NaN (equal to nothing, unordered), +-infinity.  Compared only (no arithmetic: how NaN prints   *)
+(* is not fixed); HasNan types are exempt from reflexivity and trichotomy, every other law stands.                           *)
+FlX == LeafT("floatx", TFloat, <<V(GNan), Un("-", V(GInf)), Fl(1, 1), V(GInf)>>, {"ord", "nan"})
+(* STRING LITERALS WITH ESCAPES of every kind Sylt passes through to Lua, as sequences of at most two atoms: plain letters,  *)
+(* a digit and a blank (which continue an open-ended escape when glued behind it), the letter n (an escape when glued        *)
+(* behind a backslash), \\ \n, \6 \12 \065 (decimal, one to three digits), \x41, \z, \u{41} \u{e9}.                          *)
+EscAtoms == <<"a", "5", " ", "n", "A", "\\\\", "\\n", "\\6", "\\12", "\\065", "\\x41", "\\z", "\\u{41}", "\\u{e9}">>
+EscStr == EscT(EscAtoms, 2)                                                   \* 1 + 14 + 196 = 211 literals
+EscS   == EscT(<<"\\6", "5", "\\z", " ", "a", "\\\\", "n">>, 1)                    \* 8 literals whose bytes can be printed
+EscH   == EscT(<<"\\6", "5", "\\z", " ", "\\\\", "n", "\\12">>, 1)
+EscQ   == EscT(<<"\\6", "5", "\\z", " ">>, 1)
+
 TypeTable == <<
   TE(Int4, 1), TE(Fl3, 1), TE(Str4, 1), TE(BoolT, 1),
   TE(TupT(<<Int4>>), 1), TE(TupT(<<Int4, Int4>>), 1), TE(TupT(<<Int4, Int4, Int4>>), 5),
@@ -353,7 +495,20 @@ TypeTable == <<
   TE(ListT(BlobA(Int2), 2), 1), TE(ListT(EnumS, 2), 2), TE(BlobC, 1),
   TE(BigI, 1), TE(BigF, 1), TE(TupT(<<BigI>>), 1), TE(TupT(<<BigI, Int2>>), 1), TE(TupT(<<Int2, BigI>>), 1), TE(TupT(<<BigF, Int2>>), 1),
   TE(TupT(<<TupT(<<BigI, Int2>>), Int2>>), 3), TE(ListT(BigI, 2), 7), TE(BlobA(BigI), 1),
-  TE(NumStr, 1), TE(TupT(<<NumStr5, Int2>>), 1), TE(TupT(<<TupT(<<NumStr5>>), NumStr5>>), 3) >>
+  TE(NumStr, 1), TE(TupT(<<NumStr5, Int2>>), 1), TE(TupT(<<TupT(<<NumStr5>>), NumStr5>>), 3),
+  \* function-valued fields
+  TE(BlobF, 1), TE(TupT(<<BlobF, Int2>>), 1), TE(ListT(BlobF, 2), 5), TE(EnumW, 1), TE(BlobG, 1),
+  TE(FnRef, 1), TE(TupT(<<FnRef, Int2>>), 1), TE(ListT(FnRef, 2), 1),
+  TE(BlobT("K", <<[f |-> "b", ty |-> BoolT], [f |-> "s", ty |-> StrS], [f |-> "r", ty |-> FloatT(<< <<0, 0>>, <<1, 1>> >>)]>>), 1),
+  TE(EnumT("V", <<UV1("B", BoolT), UV1("S", StrS), UV1("R", FloatT(<< <<0, 0>>, <<1, 1>> >>)), UV1("U", Unit)>>), 1), TE(ListT(BoolT, 2), 1),
+  \* width 0
+  TE(Unit, 1), TE(TupT(<<Unit>>), 1), TE(TupT(<<Int3, Unit>>), 1), TE(TupT(<<Unit, Str2>>), 1), TE(TupT(<<Unit, Unit>>), 1),
+  TE(TupT(<<TupT(<<Int2, Unit>>), Fl2>>), 1), TE(TupT(<<Int2, Unit, Int2>>), 1), TE(ListT(Unit, 2), 1),
+  \* NaN and the infinities as components
+  TE(FlX, 1), TE(TupT(<<FlX>>), 1), TE(TupT(<<FlX, Int2>>), 1), TE(TupT(<<Int2, FlX>>), 1), TE(TupT(<<Int2, FlX, Int2>>), 3),
+  TE(TupT(<<TupT(<<Int2, FlX>>), Int2>>), 3), TE(TupT(<<Unit, FlX>>), 1), TE(ListT(FlX, 2), 1),
+  \* literals with escapes
+  TE(EscStr, 37), TE(TupT(<<EscS, Int2>>), 1), TE(TupT(<<EscS, EscS>>), 7), TE(ListT(EscS, 2), 11) >>
 
 (* numbers of different type (int against float) are still ONE order: ordering operators only, both ways round *)
 MixTable == << [l |-> Int4, r |-> Fl3], [l |-> BigI, r |-> BigF],
@@ -514,7 +669,8 @@ CaApp(f) ==
 (* application evaluated alone right after the bindings, and on fresh      *)
 (* values (the literals written in place of the variables).                *)
 RECURSIVE AstTy(_)
-AstTy(ty) == CASE ty.k = "tint" -> TInt [] ty.k = "tfloat" -> TFloat [] ty.k = "tstr" -> TStr [] ty.k = "tbool" -> TBool
+AstTy(ty) == CASE ty.k = "tint" -> TInt [] ty.k = "tfloat" -> TFloat [] ty.k \in {"tstr", "tesc"} -> TStr [] ty.k = "tbool" -> TBool
+               [] ty.k = "tleaf" -> ty.ast
                [] ty.k = "ttuple" -> TTuple([i \in 1..Len(ty.es) |-> AstTy(ty.es[i])])
                [] ty.k = "tlist" -> TList(AstTy(ty.e))
                [] ty.k = "tname" -> TName(ty.n)
@@ -546,12 +702,28 @@ HistTemplates == <<
   HT("sub-flip",     "num", <<HS("-", 1, 2, ""), HS("-", 2, 1, ""), HS("-", 1, 2, "")>>),
   HT("mul-div",      "num", <<HS("*", 1, 2, ""), HS("/", 1, 2, ""), HS("*", 1, 2, "")>>),
   HT("neg-repeat",   "num", <<HS("neg", 1, 0, ""), HS("neg", 1, 0, ""), HS("+", 1, 3, "")>>),
-  HT("arith-inside", "num", <<HS("+", 1, 2, "tup"), HS("-", 1, 2, "tup"), HS("==", 1, 2, "tup")>> ) >>
+  HT("arith-inside", "num", <<HS("+", 1, 2, "tup"), HS("-", 1, 2, "tup"), HS("==", 1, 2, "tup")>> ),
+  \* HOW THE OPERANDS ARE WRITTEN does not matter: operand 11..13 = the LITERAL of value 1..3 written in place (1..3 = the
+  \* variable holding it); "chain" = x op y op x.  A compiler that evaluates operators on literals itself must agree.
+  HT("eq-lit-var",    "eq-lit",  <<HS("==", 1, 12, ""), HS("!=", 11, 2, ""), HS("==", 11, 12, "")>>),
+  HT("ord-lit-var",   "ord-lit", <<HS("<", 1, 12, ""), HS("<=", 11, 2, ""), HS(">=", 11, 12, "")>>),
+  HT("add-lit-var",   "add-lit", <<HS("+", 1, 12, ""), HS("+", 11, 2, ""), HS("+", 11, 12, "")>>),
+  HT("add-chain",     "add-lit", <<HS("+", 11, 12, "chain"), HS("+", 11, 2, "chain"), HS("+", 1, 2, "chain")>>),
+  HT("arith-lit-var", "num-lit", <<HS("-", 1, 12, ""), HS("*", 11, 2, ""), HS("/", 11, 12, "")>>) >>
 
+\* the written-as-literal templates are for the types whose values the compiler could compute with: scalars and tuples of them
+RECURSIVE ValueTy(_)
+ValueTy(ty) == CASE ty.k \in {"tint", "tfloat", "tstr", "tesc", "tbool"} -> TRUE
+                 [] ty.k = "ttuple" -> \A i \in 1..Len(ty.es) : ValueTy(ty.es[i])
+                 [] OTHER -> FALSE
 TemplatesFor(ty) == SelectSeq(HistTemplates, LAMBDA t : \/ t.need = "eq"
                                                         \/ t.need = "ord" /\ Ordered(ty)
                                                         \/ t.need = "add" /\ Addable(ty)
-                                                        \/ t.need = "num" /\ Numeric(ty))
+                                                        \/ t.need = "num" /\ Numeric(ty)
+                                                        \/ t.need = "eq-lit" /\ ValueTy(ty)
+                                                        \/ t.need = "ord-lit" /\ ValueTy(ty) /\ Ordered(ty)
+                                                        \/ t.need = "add-lit" /\ ValueTy(ty) /\ Addable(ty)
+                                                        \/ t.need = "num-lit" /\ ValueTy(ty) /\ Numeric(ty))
 
 \* history types: [ty, qs]; every triple of values (quick: every qs-th triple, qs coprime to Count^3)
 HIntS == IntT(<<0, 1>>)
@@ -569,14 +741,24 @@ HistTable == <<
   TE(TupT(<<StrT(<<"a", "b">>), HIntS>>), 3),                                       \* tuple with a string
   TE(BlobT("C", <<[f |-> "a", ty |-> BlobA(HIntS)], [f |-> "e", ty |-> EnumT("E", <<UV0("N"), UV1("I", HIntS)>>)]>>), 5),  \* blob in blob
   TE(ListT(BlobA(HIntS), 2), 5),                                                    \* blob in list
-  TE(StrT(<<"a", "b">>), 1), TE(HIntS, 1) >>
+  TE(StrT(<<"a", "b">>), 1), TE(HIntS, 1),
+  TE(BlobF, 5),                                                                     \* blob with a function-valued field
+  TE(Unit, 1), TE(TupT(<<HIntS, Unit>>), 1),                                        \* width 0
+  TE(Fl3, 2),                                                                       \* float literals against float variables
+  TE(EscH, 11), TE(TupT(<<EscQ, IntT(<<1>>)>>), 3),                                       \* literals with escapes against variables
+  TE(NumStr5, 7) >>
 
 RECURSIVE HistRun(_, _, _, _, _)
 HistRun(exprs, k, fr, S, acc) ==
   IF k > Len(exprs) THEN acc
   ELSE LET r == EvalE(exprs[k], fr, S) IN HistRun(exprs, k + 1, fr, IF r.sig = "ok" THEN r.s ELSE S, Append(acc, r))
 
-StepExpr(s, x) == IF s.op = "neg" THEN Un("-", x[s.l]) ELSE Bin(s.op, WrapE(s.w, x[s.l]), WrapE(s.w, x[s.r]))
+Opnd(c, vs, ls) == IF c > 10 THEN ls[c - 10] ELSE vs[c]
+VarOf(c) == IF c > 10 THEN c - 10 ELSE c
+StepExpr(s, vs, ls) ==
+  IF s.op = "neg" THEN Un("-", Opnd(s.l, vs, ls))
+  ELSE IF s.w = "chain" THEN Bin(s.op, Bin(s.op, Opnd(s.l, vs, ls), Opnd(s.r, vs, ls)), Opnd(s.l, vs, ls))
+  ELSE Bin(s.op, WrapE(s.w, Opnd(s.l, vs, ls)), WrapE(s.w, Opnd(s.r, vs, ls)))
 
 \* history number h (within its batch) of type ty: values idx = <<i, j, k>>, template tpl
 History(ty, idx, tpl, h) ==
@@ -587,21 +769,25 @@ History(ty, idx, tpl, h) ==
       fr == LastAddr(F0)
       B == ExecSeq(binds, 1, fr, F0)
       n == Len(tpl.steps)
-      exprs == [k \in 1..n |-> StepExpr(tpl.steps[k], vars)]
-      fresh == [k \in 1..n |-> StepExpr(tpl.steps[k], lits)]
+      exprs == [k \in 1..n |-> StepExpr(tpl.steps[k], vars, lits)]
+      fresh == [k \in 1..n |-> StepExpr(tpl.steps[k], lits, lits)]
       seq == HistRun(exprs, 1, fr, B.s, <<>>)
       val(m) == ValueIn(B.s, fr, m)
       app(k) == LET s == tpl.steps[k]
                     r == seq[k]
                     alone == EvalE(exprs[k], fr, B.s)
                     lit == EvalE(fresh[k], 0, S0)
-                    risk == IF s.op = "neg" THEN HasFloatZero(val(s.l)) ELSE NegZeroRisk(s.op, val(s.l), val(s.r)) IN
+                    plain == s.w \in {"", "chain"}
+                    risk == IF s.op = "neg" THEN HasFloatZero(val(VarOf(s.l)))
+                            ELSE NegZeroRisk(s.op, val(VarOf(s.l)), val(VarOf(s.r))) IN
                 [ok |-> r.sig = "ok" /\ ~risk,
                  stuck |-> r.sig # "ok" /\ IsStuck(r.s.status),
                  item |-> [op |-> s.op, shape |-> Shape(WrapTy(s.w, ty)),
-                           rel |-> IF s.op = "neg" THEN "unary" ELSE Rel(lits[s.l], lits[s.r]),
-                           form |-> "hist:" \o tpl.n \o ":" \o ToString(k), e |-> exprs[k],
-                           want |-> IF r.sig = "ok" THEN Snap(r) ELSE NilV, h |-> h, k |-> k],
+                           rel |-> IF s.op = "neg" THEN "unary" ELSE Rel(lits[VarOf(s.l)], lits[VarOf(s.r)]),
+                           form |-> "hist:" \o tpl.n \o ":" \o ToString(k),
+                           e |-> IF plain THEN Observe(ty, s.op, exprs[k]) ELSE exprs[k],
+                           want |-> IF r.sig # "ok" THEN NilV ELSE IF plain THEN ObserveSnap(ty, s.op, Snap(r)) ELSE Snap(r),
+                           h |-> h, k |-> k],
                  laws |-> Law(SameResult(r, alone), "step-independent-of-history")
                           \cup Law(SameResult(r, lit), "step-equals-application-on-fresh-values")] IN
   [apps |-> [k \in 1..n |-> app(k)], binds |-> binds, bound |-> B.sig = "ok"]
